@@ -10,6 +10,7 @@
   queue ("THREAD LOST ON PIPE.readline()"); what is read after that is dropped by design.
 -/
 import MoThreads.Proofs.ProcSteps
+import MoThreads.Proofs.ProcRank
 namespace MoThreads.ProcessIO
 open MoThreads
 
@@ -158,6 +159,16 @@ theorem C17_join_does_not_hang {s : State} (h : sys.Reach s) (hq : sys.Quiescent
   · exact Or.inr (Or.inr (Or.inr rfl))
   · exact Or.inr (Or.inr (Or.inl rfl))
 
+/-- L2: join() returns.  For a child that ends by itself (the model's child follows a finite script), with no timeout, no
+kill and no abandoned reader, every schedule of the child, the two readers, the monitor and the caller takes at most
+`rank s` steps, and where nobody can move join() has returned or raised (and by the theorems above: returned exactly for
+exit status 0, with every line delivered). -/
+theorem C17_join_returns {s s' : State} {tr : List (Nat × Label)} (h : sys.Reach s) (r : sys.Run s tr s') :
+    tr.length ≤ rank s ∧
+    (sys.Quiescent s' → s'.upc = .idle ∨ s'.upc = .returned ∨ s'.upc = .raisedFail ∨ s'.upc = .raisedTimeout) := by
+  have := run_length_le_rank r
+  exact ⟨by omega, fun hq => C17_join_does_not_hang (h.run sys r) hq⟩
+
 /-! ### the hypotheses are satisfiable -/
 
 def runSched (s : State) : List Nat → Option State
@@ -198,5 +209,7 @@ example : ∃ s, sys.Reach s ∧ s.stopped = true ∧ s.abandoned 0 = false ∧ 
   have r0 : sys.Reach demoInit := Sys.Reach.init ⟨_, 3, by decide, rfl⟩
   have r1 : sys.Reach (demo1.getD demoInit) := Sys.Reach.env r0 (Or.inr (Or.inr (Or.inr (Or.inr (Or.inl h1)))))
   exact reach_runSched demoSched r1 h2
+
+example : rank (demo1.getD demoInit) = 30 := by decide +kernel
 
 end MoThreads.ProcessIO
